@@ -375,6 +375,54 @@ def run(ctx):
     ctx.exhaustive[R] = True
 
     # ------------------------------------------------------------------
+    R = "C06.comment_conversion"
+    ctx.rule(R, "a comment has the same text in both versions: the string "
+             "conversions of a comment line (to_gfa1_s / to_gfa2_s, used by "
+             "Gfa.to_gfa1_s / to_gfa2_s) give what str() gives, for every "
+             "spacer, and the list conversions give the comment's own list",
+             floor=6)
+    Cm = repo.cls("line.Comment")
+    f_cstr = ctx.anchor("Comment.__str__", Cm.find_method("__str__"))
+
+    def resolve_named(cls, name):
+        # first definition in the MRO: a method of that name, or a method
+        # generated with partialmethod (keywords bound)
+        for k in cls.mro_classes():
+            if name in k.methods:
+                return k.methods[name], {}
+            if name in getattr(k, "generated", {}):
+                return k.generated[name]
+        return None, {}
+
+    class StrHooks(LineHooks):
+        def to_str(self, ev, v):
+            if isinstance(v, Abs) and v.cls is Cm:
+                return ev.inline(f_cstr, [v], {})
+            return super().to_str(ev, v)
+    for spacer, target in itertools.product((" ", "", "\t", "  "),
+                                            ("gfa1", "gfa2")):
+        ctx.instance(R)
+        cm = Abs(Cm, label="comment", content="a comment", spacer=spacer,
+                 _version="generic", vlevel=1)
+        f, kws = resolve_named(Cm, "to_%s_s" % target)
+        if f is None:
+            raise AnalysisError("anchor vanished: Comment.to_%s_s" % target)
+        try:
+            out = eval_function(repo, f, [cm], dict(kws),
+                                hooks=StrHooks(repo))
+            ref = eval_function(repo, f_cstr, [cm], hooks=StrHooks(repo))
+        except Unsupported as e:
+            raise AnalysisError(str(e))
+        ok = out[0] == "return" and ref[0] == "return" and out[1] == ref[1] \
+            and ref[1] == "#" + spacer + "a comment"
+        ctx.oblige(ok)
+        if not ok:
+            ctx.violation(R, f.short, "spacer=%r,target=%s" % (spacer, target),
+                          "the conversion writes %r, str() writes %r" % (
+                              out[1], ref[1]))
+    ctx.exhaustive[R] = True
+
+    # ------------------------------------------------------------------
     R = "C06.no_counterpart"
     ctx.rule(R, "the default _to_version_a yields the line's own fields for "
              "its own version and nothing for the other; to_version returns "
